@@ -30,7 +30,21 @@ STREAM_KINDS = {
 }
 
 
+#: the three stages a streaming region goes through: unscheduled, scheduled, after layout resolution
+STREAM_FORMS = {
+    "operation": ("dart.operation", ""),
+    "schedule": ("dart.schedule", ", bounds = [8 : index], tiles = [[], []]"),
+    "access_pattern": ("dart.access_pattern", ", bounds = [8 : index]"),
+}
+
+
 def stream_text(s):
+    text = _stream_text(s)
+    name, props = STREAM_FORMS[s.get("form", "operation")]
+    return text.replace('"dart.operation"', f'"{name}"').replace('", operandSegmentSizes', f'"{props}, operandSegmentSizes')
+
+
+def _stream_text(s):
     acc, it, ot, kern = STREAM_KINDS[s["kind"]]
     src, dst = ("%e0" if it == "i32" else "%f0"), ("%e1" if ot == "i32" else "%f1")
     if kern is None:
@@ -129,7 +143,10 @@ class BufGen:
         self.tag += 1
         if p.get("streams") and k in ("copy", "gen") and r.random() < 0.4:
             kind = r.choice(list(STREAM_KINDS))
-            return {"k": "stream", "kind": kind, "tag": self.tag}
+            st = {"k": "stream", "kind": kind, "tag": self.tag}
+            if p.get("stream_forms"):
+                st["form"] = r.choice(list(STREAM_FORMS))  # dispatching may run at any stage of the dart flow
+            return st
         small = list(VIEWS) + ["%s0"] + (list(NESTED) if p.get("nested_views") else [])
         if p.get("views") and k in ("copy", "gen") and r.random() < 0.5:
             s, d = r.sample(small, 2)
